@@ -146,7 +146,7 @@ fn plan(p: &mut Plan<'_>) {
             p.assumptions = vec!["frames are u32 tags", "abandonment only before anything is recorded (the only one reachable through PacketWriter)", "gen_ack largest is a received, still tracked packet number", "a packet declared lost whose expiry passed may be forgotten by the journal"];
         }
         "C02" => {
-            p.part(netsim::NetSim { mode: netsim::Mode::C02 }, 4000, 300_000, "full client/server runs over SimNet with a seeded fault tape (bounded = survivable, liveness judged; unbounded = safety + bounded failure); non-trivial = a fault fired and the handshake or some stream made progress; distinct = hash of the wire trace and application event trace");
+            p.part(netsim::NetSim { mode: netsim::Mode::C02 }, 4000, 150_000, "full client/server runs over SimNet with a seeded fault tape (bounded = survivable, liveness judged; unbounded = safety + bounded failure); non-trivial = a fault fired and the handshake or some stream made progress; distinct = hash of the wire trace and application event trace");
             p.assumptions = vec!["TLS key material is not seeded (Ed25519 chain keeps message sizes fixed)", "single-threaded seeded executor: task order is permuted, polls never run truly concurrently"];
         }
         "C06" => {
@@ -165,12 +165,12 @@ fn plan(p: &mut Plan<'_>) {
             p.assumptions = vec!["release bound after termination: 1 s + 6 RTT of virtual time", "idle clauses only on fault-free runs; the endpoint terminating first is judged against the negotiated timeout"];
         }
         "C19" => {
-            p.part(netsim::NetSim { mode: netsim::Mode::C19 }, 1000, 100_000, "whole-stack runs in which both applications send unreliable datagrams of sizes around the peer's max_datagram_frame_size (0 = disabled, 1, 2, 100, 1200, 65535) under loss or loss-free; refusal rule, payload integrity (no merge/alter), order among delivered, and on loss-free uncongested runs every accepted datagram must reach the peer; non-trivial = datagrams were accepted; distinct = trace hash");
-            p.part(streamsim::dgram::DgramSim, 200_000, 20_000_000, "component run: two real DatagramFlows built as the connection builds them; the simulator plays the applications (send / send_bytes of sizes around the peer's limit and the varint boundaries 63/64 and 16383/16384; recv / read / read_buf), the packet assembler (remaining room around the datagram size, other frames loaded first, repeated loading into one packet) and the network (loss, delay) plus a hostile peer (frames at / over the local maximum in both encodings) and connection errors; every packet is decoded by the real FrameReader; reference = FIFO of byte vectors per direction + RFC 9221 size rule; non-trivial = a packet was lost or delayed and a datagram was read; distinct = hash of the op/result history");
+            p.part(netsim::NetSim { mode: netsim::Mode::C19 }, 1000, 40_000, "whole-stack runs in which both applications send unreliable datagrams of sizes around the peer's max_datagram_frame_size (0 = disabled, 1, 2, 100, 1200, 65535) under loss or loss-free; refusal rule, payload integrity (no merge/alter), order among delivered, and on loss-free uncongested runs every accepted datagram must reach the peer; non-trivial = datagrams were accepted; distinct = trace hash");
+            p.part(streamsim::dgram::DgramSim, 200_000, 6_000_000, "component run: two real DatagramFlows built as the connection builds them; the simulator plays the applications (send / send_bytes of sizes around the peer's limit and the varint boundaries 63/64 and 16383/16384; recv / read / read_buf), the packet assembler (remaining room around the datagram size, other frames loaded first, repeated loading into one packet) and the network (loss, delay) plus a hostile peer (frames at / over the local maximum in both encodings) and connection errors; every packet is decoded by the real FrameReader; reference = FIFO of byte vectors per direction + RFC 9221 size rule; non-trivial = a packet was lost or delayed and a datagram was read; distinct = hash of the op/result history");
             p.assumptions = vec!["RFC 9221: max_datagram_frame_size bounds the whole frame (type, length, payload); the smallest encoding of a payload of n bytes is n+1", "an assembler offering at least payload+9 bytes of room must get the head datagram (any encoding fits); between payload+1 and payload+8 either answer is accepted", "network reordering is modelled as delay: the reader must return datagrams in arrival order"];
         }
         "C20" => {
-            p.part(netsim::NetSim { mode: netsim::Mode::C20 }, 250, 15_000, "each seeded whole-stack case (handshake, transfer, loss, close at a drawn time, idle expiry, path loss) is executed seven times under exporter configurations no-op / discard-all / capturing / capturing+raw / filtered / shipped LegacySeqLogger into memory / the same logger into a sink that fails after a seed-drawn number of bytes (short write, then errors); wire and application traces must be identical; every captured event must serialise with the mandatory fields, parse back equal and convert to the legacy form without panicking; non-trivial = faults fired and progress; distinct = trace hash");
+            p.part(netsim::NetSim { mode: netsim::Mode::C20 }, 250, 6_000, "each seeded whole-stack case (handshake, transfer, loss, close at a drawn time, idle expiry, path loss) is executed seven times under exporter configurations no-op / discard-all / capturing / capturing+raw / filtered / shipped LegacySeqLogger into memory / the same logger into a sink that fails after a seed-drawn number of bytes (short write, then errors); wire and application traces must be identical; every captured event must serialise with the mandatory fields, parse back equal and convert to the legacy form without panicking; non-trivial = faults fired and progress; distinct = trace hash");
             p.assumptions = vec!["event time stamps are wall-clock and excluded from comparisons", "for the legacy logger (own writer task) only the application trace is compared", "event-builder field-value enumeration is not claimed (input enumeration)"];
         }
         "C18" => {
@@ -188,15 +188,15 @@ fn plan(p: &mut Plan<'_>) {
             p.assumptions = vec!["interleavings at the granularity of whole lock-protected calls (sub-call interleavings would need the shuttle tier, not built)", "single-consumer types are driven with one consumer and a stable waker; what happens otherwise is a probe, not a verdict"];
         }
         "C01" => {
-            p.part(streamsim::StreamSim { mode: streamsim::Mode::C01 }, 20_000, 2_000_000, "two real DataStreams + FlowController endpoints; 1..6 concurrent uni/bidi streams from both roles, writes in drawn chunks with/without shutdown, resets and stop-sending; packets of drawn capacities (25..1452 bytes) so STREAM frames split at every boundary; per-packet and per-ack fates from the tape (drop, duplicate, delay/reorder), spurious loss reports, late acks after loss; scheduler picks the interleaving of application polls, send opportunities, acks and loss detection; bounded liveness after the tape's last fault with an audit poll; non-trivial = a fault fired and data moved; distinct = hash of packet/ack/accept history");
+            p.part(streamsim::StreamSim { mode: streamsim::Mode::C01 }, 20_000, 1_000_000, "two real DataStreams + FlowController endpoints; 1..6 concurrent uni/bidi streams from both roles, writes in drawn chunks with/without shutdown, resets and stop-sending; packets of drawn capacities (25..1452 bytes) so STREAM frames split at every boundary; per-packet and per-ack fates from the tape (drop, duplicate, delay/reorder), spurious loss reports, late acks after loss; scheduler picks the interleaving of application polls, send opportunities, acks and loss detection; bounded liveness after the tape's last fault with an audit poll; non-trivial = a fault fired and data moved; distinct = hash of packet/ack/accept history");
             p.assumptions = vec!["glue mirrors qconnection (packages order, FlowControlledDataStreams, AckDataSpace, DataTracker::may_loss); the real glue is exercised by the netsim checks", "duplicates at packet level are absorbed by the packet-number check (as the journals do)"];
         }
         "C11" => {
-            p.part(streamsim::StreamSim { mode: streamsim::Mode::C11 }, 20_000, 2_000_000, "as C01 with all six flow parameters of each side drawn independently from {0,1,100,1200,4096,65536,2^20}; every emitted STREAM frame is checked against the stream and connection limits delivered so far; advertised limits must not decrease; two real endpoints must never raise an error against each other; 70% of the runs end with a forged STREAM one byte beyond the advertised stream or connection window (must be FLOW_CONTROL_ERROR)");
+            p.part(streamsim::StreamSim { mode: streamsim::Mode::C11 }, 20_000, 1_000_000, "as C01 with all six flow parameters of each side drawn independently from {0,1,100,1200,4096,65536,2^20}; every emitted STREAM frame is checked against the stream and connection limits delivered so far; advertised limits must not decrease; two real endpoints must never raise an error against each other; 70% of the runs end with a forged STREAM one byte beyond the advertised stream or connection window (must be FLOW_CONTROL_ERROR)");
             p.assumptions = vec!["limits 'delivered so far' = initial transport parameter for the stream's kind and initiator raised by MAX_* frames already processed by the sender", "forged frames use a fresh peer stream index the peer application never opens"];
         }
         "C12" => {
-            p.part(streamsim::StreamSim { mode: streamsim::Mode::C12 }, 20_000, 2_000_000, "as C01 with initial stream counts from {0,1,2,3,10,100} and both concurrency strategies; local opens never exceed the delivered limit; accept yields every peer stream once, in order; 70% of the runs end with a forged frame: stream index at/over the advertised count, STREAM or RESET_STREAM on a send-only stream, STOP_SENDING / MAX_STREAM_DATA on a receive-only stream, frames for a local stream never opened, four final-size contradictions; expected error kinds from RFC 9000");
+            p.part(streamsim::StreamSim { mode: streamsim::Mode::C12 }, 20_000, 1_000_000, "as C01 with initial stream counts from {0,1,2,3,10,100} and both concurrency strategies; local opens never exceed the delivered limit; accept yields every peer stream once, in order; 70% of the runs end with a forged frame: stream index at/over the advertised count, STREAM or RESET_STREAM on a send-only stream, STOP_SENDING / MAX_STREAM_DATA on a receive-only stream, frames for a local stream never opened, four final-size contradictions; expected error kinds from RFC 9000");
             p.assumptions = vec!["legality of a forged frame is judged against what the target endpoint has emitted (advertised), not what was delivered"];
         }
         "C13" => {
